@@ -428,9 +428,9 @@ ares_status_t ares_dns_name_write(ares_buf_t *buf, ares_llist_t **list,
   }
 
   /* Store pointer for future jumps as long as its not an exact match for
-   * a prior entry */
+   * a prior entry, and a 14-bit compression pointer can reach it */
   if (list != NULL && (off == NULL || off->name_len != orig_name_len) &&
-      name_len > 0) {
+      name_len > 0 && pos <= 0x3FFF) {
     status = ares_nameoffset_create(list, name /* not truncated copy! */, pos);
     if (status != ARES_SUCCESS) {
       goto done; /* LCOV_EXCL_LINE: OutOfMemory */
